@@ -2,7 +2,7 @@ import CifModel.Lemmas.LexDefectMulti
 import CifModel.Props.C12Scan
 /-
   Props/C12ScanMulti (group gW) — scanner level: SEVERAL defective places in one token, and an unpaired LEAD surrogate ANYWHERE
-  (not only in front of a closing quote), for data names, comments, whitespace-delimited values and quoted strings (CIF 2.0).
+  (not only in front of a closing quote), for data names, comments, whitespace-delimited values, text fields and quoted strings (CIF 2.0).
 
   A token body is `s₀ e₁ s₁ … eₙ sₙ` (`Body`, Lemmas/LexDefectMulti): admissible runs `sᵢ` and events `eᵢ` between them — `Ev.of1`:
   one defective unit (`Defect1`: `C12_disallowed_char`, `C12_invalid_char_trail`), `Ev.lead l x`: an unpaired lead surrogate followed
@@ -123,12 +123,31 @@ theorem C12_invalid_char_lead_bare (l x : Nat) (hl : isLeadU l = true) (hx : pla
     h2 (fun _ => hb2) (by simp [Body.inp, Ev.lead]) hstart (by simpa [Body.out, Ev.lead] using hres) hctx).1
   simpa [Body.inp, Body.out, Body.col, Body.reps, Ev.lead] using this
 
+/-- **C12_several_defects_text** — a text field with any number of defective places, on any of its lines (`Body.textOk`: the runs
+    are admissible text-field content whose lines fit; `Body.tpos` / `Body.treps`: positions and reports follow the line breaks of
+    the runs): token TVALUE with the repaired text, exactly the reports of the events, each at ITS line and column -/
+theorem C12_several_defects_text (dia : Dialect) (body : Body) (sN ctx : Str) (line : Nat) (lt : TokType) (log : List Report)
+    (haw : afterWsOf lt = true)
+    (hb : Body.textOk dia line 1 body) (hN : textOk dia sN = true)
+    (hfit : linesFit (body.tpos line 1).2 (sN ++ [10]) = true) (hctx : followOk dia ctx = true) :
+    nextToken dia ⟨59 :: (body.inp ++ (sN ++ 10 :: 59 :: ctx)), line, 0, lt⟩ acceptAll log
+        = .ok (⟨.tvalue, body.out ++ sN, (posAfter (body.tpos line 1).1 (body.tpos line 1).2 sN).1 + 1, 1⟩,
+               ⟨ctx, (posAfter (body.tpos line 1).1 (body.tpos line 1).2 sN).1 + 1, 1, .tvalue⟩) (body.treps line 1 ++ log)
+    ∧ (∀ d r, body.treps line 1 = d ++ [r] →
+        nextToken dia ⟨59 :: (body.inp ++ (sN ++ 10 :: 59 :: ctx)), line, 0, lt⟩ dieAll log = .abort r.code (r :: log)) := by
+  have hs := multi_text (dia := dia) body sN ctx line log hb hN hfit hctx
+  refine ⟨stepTok_tok_nextToken (by rw [haw]; exact hs), fun d r hr => ?_⟩
+  rw [hr] at hs
+  rw [nextToken_cons, haw, die_step hs]
+
 /-- non-vacuity: the events exist — U+0001 (disallowed), U+DC00 (unpaired trail), U+D800 followed by `c` (unpaired lead) — so
     `'a\x01b\uDC00c\uD800cd'` is a body with three defective places -/
 example : EvDelim .cif2 39 1 (Ev.of1 1 1 (disReps .cif2 1)) ∧ EvDelim .cif2 39 1 (Ev.of1 0xDC00 (replChar .cif2) (fun line col => [⟨CIF_INVALID_CHAR, line, col⟩]))
-    ∧ EvDelim .cif2 39 1 (Ev.lead 0xD800 99) ∧ quotedOk .cif2 39 (a!"d") = true :=
+    ∧ EvDelim .cif2 39 1 (Ev.lead 0xD800 99) ∧ quotedOk .cif2 39 (a!"d") = true
+    ∧ Body.textOk .cif2 1 1 [(a!"ab\ncd", Ev.lead 0xD800 99)] :=
   ⟨EvDelim.of1 (C12_disallowed_char .cif2 1 (by decide)).1 39 (Or.inr rfl) 1,
    EvDelim.of1 (C12_invalid_char_trail .cif2 0xDC00 (by decide)).1 39 (Or.inr rfl) 1,
-   EvDelim.lead 0xD800 99 (by decide) ⟨by decide, by decide, by decide⟩ 39 (Or.inr rfl) (by decide) (by decide) 1, by decide⟩
+   EvDelim.lead 0xD800 99 (by decide) ⟨by decide, by decide, by decide⟩ 39 (Or.inr rfl) (by decide) (by decide) 1, by decide,
+   ⟨by decide, by decide, EvText.lead 0xD800 99 (by decide) ⟨by decide, by decide, by decide⟩ (by decide) (by decide), trivial⟩⟩
 
 end CifModel
